@@ -278,6 +278,39 @@ EXC_VARIANTS = {
 }
 
 
+EXC_VARIANTS.update({
+    "str-attr": "class Cus(Exception):\n    def __init__(self, a, b):\n        self.a = a\n        self.b = b\n"
+                "    def __str__(self):\n        return f'{self.a}-{self.b}'\ndef f0(x):\n    raise Cus(1, 'q')\n",
+    "str-empty": "class Cus(Exception):\n    def __str__(self):\n        return ''\ndef f0(x):\n    raise Cus(1)\n",
+    "str-nonstr": "class Cus(Exception):\n    def __str__(self):\n        return 5\ndef f0(x):\n    raise Cus(1)\n",
+    "str-inherited": "class Base(Exception):\n    def __str__(self):\n        return 'base ' + helper(self.args[0])\n"
+                     "class Cus(Base):\n    pass\ndef helper(v):\n    return str(v * 2)\ndef f0(x):\n    raise Cus(21)\n",
+    "str-of-cause": "class Cus(Exception):\n    def __str__(self):\n        return 'c text'\ndef f0(x):\n    try:\n"
+                    "        raise Cus(1)\n    except Cus as e:\n        raise ValueError('v') from e\n",
+    # a __str__ that waits: cannot be completed by the synchronous formatter (model: suspends); CPython has no
+    # task.sleep, its __str__ fails with NameError - the two last lines agree by construction of the case
+    "str-sleeps": "class Cus(Exception):\n    def __str__(self):\n        task.sleep(0.01)\n        return 'late'\n"
+                  "def f0(x):\n    raise Cus(1)\n",
+})
+# how the model sees the __str__ of each variant (default: native, the text is Python's)
+STR_KIND = {"str-raises": "raises", "str-custom": "returns", "str-attr": "returns", "str-empty": "returns",
+            "str-nonstr": "nonstring", "str-inherited": "returns", "str-sleeps": "suspends"}
+NL = "\u23ce"
+
+
+def last_line_driver(p, r):
+    """driver line for the last line of the report of an exception-class variant: (last NAME KIND TEXT)"""
+    name = p["shape"][len("exc:"):]
+    kind = STR_KIND.get(name, "native")
+    last = _unq(r.get("last", ""))
+    cls, sep, text = last.partition(": ")
+    if kind == "suspends":
+        text = "late"
+    elif kind in ("raises", "nonstring"):
+        text = ""
+    return "C18 " + sx(["last", cls, kind, text.replace("\n", NL)])
+
+
 def exc_variant_case(name, entry):
     src = EXC_VARIANTS[name]
     if entry == "load":
@@ -319,6 +352,7 @@ def dump_frames(exc, root):
     import ast as _ast
     from custom_components.pyscript import eval as ev
     out = []
+    ctx_ids = {}                       # identity of the evaluators, numbered in order of appearance
     tb = exc.__traceback__
     while tb:
         fr = tb.tb_frame
@@ -340,7 +374,8 @@ def dump_frames(exc, root):
                     if isinstance(v, (_ast.expr, _ast.stmt)) and hasattr(v, "lineno"):
                         line = v.lineno
                         break
-                out.append(["ae", _short(root, ctx.global_ctx.get_file_path() or ctx.filename), ctx.name, line])
+                out.append(["ae", ctx_ids.setdefault(id(ctx), len(ctx_ids) + 1),
+                            _short(root, ctx.global_ctx.get_file_path() or ctx.filename), ctx.name, line])
             else:
                 out.append(["o"])
         else:
@@ -492,8 +527,8 @@ def script_only(s):
             f, n, l = e.split("|")
             if n == "file.a.f0" and l == "1":
                 continue                                   # the harness's own call expression `K0().f0(1)`
-            if n in ("file.a", "modules.m", "-"):
-                n = "<module>"
+            if n == "-" or re.fullmatch(r"(file|modules)\.\w+", n):
+                n = "<module>"                             # a file body: the context's name stands for `<module>`
             norm.append(f"{f}|{n}|{l}")
         out.append("[" + " ".join(norm) + "]")
     return " ; ".join(out)
@@ -1146,6 +1181,9 @@ def run_impl(cases):
         if c.payload["kind"] == "tb":
             c.impl = r["impl"]
             c.line = r["lines"]
+            if str(c.payload.get("shape", "")).startswith("exc:") and r["impl"] != "no-exception" and "last" in r:
+                c.impl += " ; last=" + _unq(r.get("last_ps", "")).replace("\n", NL)
+                c.line = list(c.line) + [last_line_driver(c.payload, r)]
         else:
             c.impl = entry_impl_string(r["res"])
 
@@ -1173,13 +1211,20 @@ def _execute(mod, cases, br):
         if c.payload["kind"] == "tb":
             models, specs, accepts = [], [], []
             for x in o:
-                m = re.match(r"model=(\[.*?\]) accept=(\d) spec=(\[.*\])$", x)
+                m = re.match(r"model=(\[.*?\]) accept=(\d) spec=(\[.*?\]) pre=(\[.*\])$", x)
                 if not m:
-                    models.append(x)
+                    ml = re.match(r"model=(.*) spec=(.*) pre=(.*)$", x)
+                    if ml:                                  # the last line of the report (exception-class variants)
+                        models.append("last=" + ml.group(1))
+                        c.payload["_last_spec"] = ml.group(2)
+                        c.payload["_last_pre"] = ml.group(3)
+                    else:
+                        models.append(x)
                     continue
                 models.append(m.group(1))
                 accepts.append(m.group(2))
                 specs.append(m.group(3))
+                c.payload.setdefault("_pre", []).append(m.group(4))
             c.model = " ; ".join(models) if o else (None if not c.line else "err")
             c.spec = " ; ".join(specs)
             c.payload["_accept"] = accepts
@@ -1448,7 +1493,8 @@ def _merged(ea, eb):
 def replay_cases(obj):
     p = obj["case"]
     p.pop("_run", None)
-    p.pop("_accept", None)
+    for k in ("_accept", "_pre", "_last_spec", "_last_pre"):
+        p.pop(k, None)
     return [Case(p, entry_line(p) if p["kind"] == "entry" else None)]
 
 
